@@ -66,6 +66,11 @@ CURATED = [
     mk({"p1": ["p2"], "p2": ["m1"], "m1": []}, ["p1", "p2"], spell={"p2": "short"}),
     mk({"p1": ["p3"], "p2": ["p3"], "p3": []}, ["p1", "p2", "p3"], spell={"p3": "short"}),
     mk({"p1": ["p2"], "p2": ["p1"]}, ["p1", "p2"], spell={"p1": "short"}),
+    # a helper named relative to the loading package by some, absolutely by nobody else
+    # the root package (p0) names a helper relative to itself, the others name it absolutely
+    mk({"p0": ["m1"], "p1": ["m1"], "m1": ["m2"], "m2": []}, ["p0", "p1"], spell={"p0>m1": "rel"}),
+    mk({"p0": ["m1", "m2"], "p1": ["m2"], "m1": ["m2"], "m2": []}, ["p0", "p1"], spell={"p0>m2": "rel"}),
+    mk({"p0": ["m1"], "p1": ["m1"], "p2": ["p0"], "m1": []}, ["p0", "p1", "p2"], spell={"p0>m1": "rel", "p0": "short"}),
     # a shared helper that cannot be read / parsed / fetched
     mk({"p1": ["m1"], "p2": ["m1"], "m1": []}, ["p1", "p2"], bad=["m1"], kinds={"m1": "missing"}),
     mk({"p1": ["m1"], "p2": ["m1"], "m1": []}, ["p1", "p2"], bad=["m1"], kinds={"m1": "syntax"}),
@@ -100,6 +105,18 @@ def random_cfg(rnd, nroots=None, nlibs=None, cyclic_ok=True, p_bad=0.15):
         loads[a] = loads[a] + [b]
         if rnd.random() < 0.6:
             spell[b] = "short"
+    if rnd.random() < 0.3:
+        # the first package is the root package and may name helpers relative to itself
+        old = roots[0]
+        roots[0] = "p0"
+        loads["p0"] = loads.pop(old)
+        for a in list(loads):
+            loads[a] = ["p0" if b == old else b for b in loads[a]]
+        spell = {("p0" if k == old else k): v for k, v in spell.items()}
+        bad = ["p0" if b == old else b for b in bad]
+        for b in loads["p0"]:
+            if b in libs and rnd.random() < 0.5:
+                spell["p0>%s" % b] = "rel"
     return mk(loads, roots, bad, kinds, spell)
 
 
